@@ -342,5 +342,39 @@ def run_case(case, ctx):
                                   f"rendering has eb_G{g}I = {m.group(1) if m else None}"))
     except Exception as e:
         viol.append(violation("generator_raised", f"re-render after binding-energy override: {type(e).__name__}: {e}"))
+    # ---- multi-step: the dust model is switched on the same Network after a first rendering; the next rendering follows the new model exactly
+    #      as a network constructed with it does
+    other = {"hh93": "hh93i", "hh93i": "hh93", "rr07": "rr07x", "rr07x": "rr07"}[model]
+    try:
+        def rates_text(path):
+            # everything the dust model can influence: rate statements, parameter struct, constants
+            out = []
+            for f in sorted((path / "src").glob("*.cpp")) + [path / "include" / "naunet_data.h", path / "include" / "naunet_constants.h"]:
+                if f.name != "CMakeLists.txt":
+                    out.append(f.read_text())
+            return "\n".join(out)
+        Species.reset()
+        fresh = Network(filelist=str(work / f"net_main.{fmt}"), fileformats=fmt, grain_model=other)
+        fresh_ok = True
+        try:
+            fresh.to_code(method="dense", path=str(work / "sw_fresh"))
+        except Exception:
+            fresh_ok = False          # the other model does not support every reaction of this file: nothing to compare
+        if fresh_ok:
+            Species.reset()
+            net3 = Network(filelist=str(work / f"net_main.{fmt}"), fileformats=fmt, grain_model=model)
+            net3.to_code(method="dense", path=str(work / "sw_a"))
+            net3.grain_model = other
+            net3.to_code(method="dense", path=str(work / "sw_b"))
+            if rates_text(work / "sw_a") == rates_text(work / "sw_fresh"):
+                obs["model_switch_indistinguishable"] += 1       # the two models render this file identically: nothing can be observed
+            else:
+                obs["model_switch_after_render_checked"] += 1
+            if rates_text(work / "sw_b") != rates_text(work / "sw_fresh"):
+                same_as_old = rates_text(work / "sw_b") == rates_text(work / "sw_a")
+                viol.append(violation("model_switch_ignored", f"{fmt}: grain_model set to {other} after a rendering with {model}: the next rendering's rate "
+                                      f"statements differ from a network constructed with {other}" + (" (they are still those of " + model + ")" if same_as_old else "")))
+    except Exception as e:
+        viol.append(violation("generator_raised", f"re-render after switching the dust model: {type(e).__name__}: {e}"))
     sample = {"pair": [fmt, model], "lines": lines[:4], "kinds": sorted(kinds), "user_eb": case["user_eb"], "user_yield": case["user_yield"]}
     return {"status": "violated" if viol else "held", "violations": viol[:8], "obs": dict(obs), "nontrivial": len(kinds) >= 4, "sample": sample}
